@@ -244,8 +244,8 @@ def run(tier, seed):
         for _ in range(20000):
             parts = [rng.choice(ops + ["a", "b", " ", "x1", "f"]) for _ in range(rng.randint(1, 5))]
             v = "".join(parts).strip() or ">"
-            if "'" in v or "/" in v or "\0" in v:
-                continue
+            if "'" in v or "/" in v or "\0" in v or v in ("f", "d", "o.txt"):
+                continue          # (f, d, o.txt are the prepared directory's own entries)
             cls = "random-mix"
             cases.append({"value": v, "cls": cls, "delivery": rng.choice(["var", "var-brace", "assigned-var", "dollar-sub", "backquote-sub", "glob", "glob-dir"]),
                           "quote": rng.choice(["unq", "dq"]), "pos": rng.randrange(3), "nb": rng.randrange(len(NEIGHBOURS)),
